@@ -151,6 +151,10 @@ pub struct TcpFlow {
     server_data: Vec<TcpData>,
     client_http_parsed: bool,
     server_http_parsed: bool,
+    /// Initial sequence number of the client (from its SYN)
+    client_isn: u32,
+    /// Initial sequence number of the server, once its SYN+ACK has been seen
+    server_isn: Option<u32>,
 }
 
 /// Quick check if HTTP data is complete for parsing (supports HTTP/1.x and HTTP/2)
@@ -180,7 +184,13 @@ impl TcpFlow {
             server_ip: dst_ip,
             client_port: src_port,
             server_port: dst_port,
-            client_data: vec![tcp_data],
+            client_isn: tcp_data.sequence,
+            server_isn: None,
+            // bytes carried by the SYN itself follow the sequence number the SYN consumes
+            client_data: vec![TcpData {
+                sequence: tcp_data.sequence.wrapping_add(1),
+                data: tcp_data.data,
+            }],
             server_data: Vec::new(),
             client_http_parsed: false,
             server_http_parsed: false,
@@ -197,13 +207,41 @@ impl TcpFlow {
             &self.server_data
         };
 
-        let mut sorted_data = data.clone();
+        // The stream starts one past the initial sequence number (the SYN consumes one). All
+        // positions are taken relative to that origin with wrapping arithmetic, so that ordering
+        // survives the 2^32 wrap-around. Without a captured handshake the earliest segment seen
+        // (by signed distance from the first arrival) stands in for the origin.
+        let isn = if is_client {
+            Some(self.client_isn)
+        } else {
+            self.server_isn
+        };
+        let mut segments: Vec<&TcpData> = data.iter().filter(|d| !d.data.is_empty()).collect();
+        let Some(first_seen) = segments.first().map(|d| d.sequence) else {
+            return Vec::new();
+        };
+        let origin = match isn {
+            Some(isn) => isn.wrapping_add(1),
+            None => segments
+                .iter()
+                .map(|d| d.sequence)
+                .min_by_key(|seq| seq.wrapping_sub(first_seen) as i32)
+                .unwrap_or(first_seen),
+        };
+        segments.sort_by_key(|d| d.sequence.wrapping_sub(origin));
 
-        sorted_data.sort_by_key(|tcp_data| tcp_data.sequence);
-
-        let mut full_data = Vec::new();
-        for tcp_data in sorted_data {
-            full_data.extend_from_slice(&tcp_data.data);
+        // Only the contiguous prefix is a byte stream: stop at the first gap, and do not repeat
+        // bytes that a retransmission or an overlapping segment delivers again.
+        let mut full_data: Vec<u8> = Vec::new();
+        for segment in segments {
+            let offset = segment.sequence.wrapping_sub(origin) as usize;
+            if offset > full_data.len() {
+                break;
+            }
+            let already_have = full_data.len().saturating_sub(offset);
+            if let Some(new_bytes) = segment.data.get(already_have..) {
+                full_data.extend_from_slice(new_bytes);
+            }
         }
         full_data
     }
@@ -278,6 +316,14 @@ fn process_tcp_packet(
     };
 
     if let Some(flow) = tcp_flow {
+        // remember where the server's byte stream starts
+        if tcp.get_flags() & pnet::packet::tcp::TcpFlags::SYN != 0
+            && src_ip == flow.server_ip
+            && src_port == flow.server_port
+        {
+            flow.server_isn = Some(tcp.get_sequence());
+        }
+
         if !tcp.payload().is_empty() {
             let tcp_data = TcpData { sequence: tcp.get_sequence(), data: Vec::from(tcp.payload()) };
 
